@@ -779,7 +779,8 @@ def _check_setidx(case, ctx):
         status, tree = R.unique_status(py), True
     else:
         status = R.unique_status(py)
-        tree = True if case['reorder'] else R.is_tree(py)
+        # reordering makes any labels a tree, except that NaN / NaT never equals its own repetition
+        tree = (not any(canon.is_self_unequal(x) for t in py for x in t[:-1])) if case['reorder'] else R.is_tree(py)
     klass = {'op': op, 'drop': case['drop'], 'n_key_cols': len(cols), 'all_columns': len(set(cols)) == nc,
              'col_kind': spec.col_kind, 'hierarchical_columns': spec.col_kind.startswith('hier'),
              'label_status': status, 'tree': tree, 'reorder': bool(hier and case['reorder']),
@@ -1268,6 +1269,18 @@ def _list_inference_hazards(rs, right_rows, fill):
     return out
 
 
+_LABEL_CAT = {'auto': 'int', 'int': 'int', 'negint': 'int', 'float': 'float', 'bool': 'bool', 'str': 'str', 'IndexDate': 'date'}
+
+
+def _union_coerces(lk, rk):
+    """The union / reindex of two flat indexes re-types labels when one is a datetime index
+    and the other is not, or when they hold different kinds of numbers."""
+    a, b = _LABEL_CAT.get(lk, lk), _LABEL_CAT.get(rk, rk)
+    if a == b:
+        return False
+    return 'date' in (a, b) or {a, b} <= {'int', 'float', 'bool'}
+
+
 def _check_join(case, ctx):
     ls, rs, how = case['left'], case['right'], case['how']
     fl, fr = F.build_frame(ls, case['llayout']), F.build_frame(rs, case['rlayout'])
@@ -1313,8 +1326,11 @@ def _check_join(case, ctx):
              'matched_pairs_share_labels': share, 'unmatched_left_label_in_right': ul_in_r, 'unmatched_right_label_in_left': ur_in_l,
              'left_row_kind': ls.row_kind, 'right_row_kind': rs.row_kind,
              'hierarchical_index': ls.row_kind.startswith('hier') or rs.row_kind.startswith('hier'),
+             'hierarchical_sides': int(ls.row_kind.startswith('hier')) + int(rs.row_kind.startswith('hier')),
+             'hierarchy_has_datetime_level': any(isinstance(x, np.datetime64) for sp in (ls, rs) if sp.row_kind.startswith('hier')
+                                                 for t in sp.rows for x in t),
              'index_kinds_differ': ls.row_kind != rs.row_kind,
-             'datetime_index_meets_other_kind': (ls.row_kind == 'IndexDate') != (rs.row_kind == 'IndexDate')}
+             'union_coerces_labels': _union_coerces(ls.row_kind, rs.row_kind)}
     out, exc = _call(lambda: getattr(fl, 'join_' + how)(fr, **kw))
     if path == 'many_refused':
         if exc is None:
@@ -1388,3 +1404,76 @@ _CHECKS = {'setidx': _check_setidx, 'unset': _check_unset, 'shift': _check_shift
 
 def check(case, ctx):
     return _CHECKS[case['kind']](case, ctx)
+
+
+# --------------------------------------------------------------------------------------
+# literal probes: one per known finding, so that its KNOWN-FINDING line is printed on every run
+
+def _fs(rows, cols, row_kind, col_kind, dtypes, cells):
+    return F.FrameSpec(rows, cols, row_kind, col_kind, dtypes, cells, None)
+
+
+def _d(s):
+    return np.datetime64(s)
+
+
+def probes(ctx):
+    def lay(spec):
+        return F.layout_all_1d(spec.dtypes)
+
+    def join(left, right, how, lcols, rcols, ldepth=None, rdepth=None, composite=False, fill=NAN):
+        return {'kind': 'join', 'left': left, 'right': right, 'llayout': lay(left), 'rlayout': lay(right), 'how': how,
+                'ldepth': ldepth, 'rdepth': rdepth, 'lcols': lcols, 'rcols': rcols, 'lt': 'L.{}', 'rt': 'R.{}', 'fill': fill,
+                'default_fill': False, 'composite': composite, 'cifv': None, 'scalar_cols': True}
+
+    def pivot(spec, i, c, d, func, fill=NAN):
+        return {'kind': 'pivot', 'spec': spec, 'layout': lay(spec), 'index_fields': i, 'columns_fields': c, 'data_fields': d,
+                'all_data': d, 'func': func, 'fill': fill, 'default_fill': False, 'scalar_args': False}
+
+    out = []
+    # join, composite_index=False: unmatched left row 'c' carries label 2, which is also a right label
+    L_ = _fs([0, 1, 2], ['k', 'lv'], 'int', 'str', ['<U1', 'int64'], [['a', 1], ['b', 2], ['c', 3]])
+    R_ = _fs([0, 1, 2], ['k', 'rv'], 'int', 'str', ['<U1', 'float64'], [['b', 20.0], ['a', 10.0], ['d', 40.0]])
+    out.append(join(L_, R_, 'left', [0], [0]))
+    # join, composite_index=False on hierarchical indexes
+    LH = _fs([('a', _d('2020-01-01')), ('a', _d('2020-01-02'))], ['lv'], 'hier2', 'str', ['int64'], [[1], [2]])
+    RH = _fs([('a', _d('2020-01-02')), ('a', _d('2020-01-01')), ('b', _d('2020-01-01'))], ['rv'], 'hier2', 'str', ['float64'],
+             [[20.0], [10.0], [30.0]])
+    out.append(join(LH, RH, 'inner', [], [], ldepth=[0, 1], rdepth=[0, 1]))
+    # join, composite_index=False: float labels on the left, int labels on the right
+    LF = _fs([2.5, 1.5], ['k'], 'float', 'str', ['int64'], [[7], [8]])
+    RF = _fs([0, 1, 2], ['k', 'rv'], 'auto', 'str', ['int64', 'bool'], [[1, True], [2, False], [3, True]])
+    out.append(join(LF, RF, 'outer', [0], [0]))
+    # join: int fill value into a timedelta64 right column
+    LT = _fs([0, 1], ['k'], 'auto', 'str', ['int64'], [[1], [2]])
+    RT = _fs([0], ['k', 'td'], 'auto', 'str', ['int64', 'm8[D]'], [[1, np.timedelta64(5, 'D')]])
+    out.append(join(LT, RT, 'left', [0], [0], composite=True, fill=0))
+    # pivot: a pair with one source row, func=len
+    P1 = _fs([0, 1, 2], ['k', 'c', 'v'], 'auto', 'str', ['<U1', 'int64', 'int64'], [['a', 1, 10], ['a', 1, 20], ['b', 1, 30]])
+    out.append(pivot(P1, [0], [1], [2], 'len'))
+    # pivot: two data fields, one func whose result dtype differs from the source dtype
+    P2 = _fs([0, 1, 2, 3], ['k', 's', 'v'], 'auto', 'str', ['<U1', '<U5', 'int64'],
+             [['a', 'ab', 1], ['a', 'zz', 2], ['b', 'a', 3], ['b', 'b', 4]])
+    out.append(pivot(P2, [0], [], [1, 2], 'len'))
+    # pivot: index fields of different kinds in a non-tree first-appearance order
+    P3 = _fs([0, 1, 2], ['k', 'n', 'v'], 'auto', 'str', ['<U1', 'int64', 'int64'], [['a', 1, 10], ['b', 1, 20], ['a', 2, 30]])
+    out.append(pivot(P3, [0, 1], [], [2], 'sum'))
+    # pivot: int column label as columns field with two data fields
+    P4 = _fs([0, 1], [10, 11, 12, 13], 'auto', 'int', ['<U1', 'int64', 'int64', 'int64'], [['a', 1, 5, 6], ['b', 2, 7, 8]])
+    out.append(pivot(P4, [0], [1], [2, 3], 'sum'))
+    # pivot: Boolean index field with a columns field
+    P5 = _fs([0, 1, 2, 3], ['e', 'd', 'v2', 'f'], 'auto', 'str', ['bool', 'float64', 'bool', 'int64'],
+             [[True, 1.5, True, 2], [False, 1.5, True, 2], [True, 0.5, True, 2], [True, 2.5, False, 1]])
+    out.append(pivot(P5, [2], [3], [1], 'len'))
+    # set_index_hierarchy of every column with drop=True
+    S1 = _fs([0, 1], ['a', 'b'], 'auto', 'str', ['<U1', 'int64'], [['x', 1], ['y', 2]])
+    out.append({'kind': 'setidx', 'spec': S1, 'layout': lay(S1), 'op': 'set_index_hierarchy', 'cols': [0, 1], 'drop': True,
+                'reorder': False, 'then_unset': False, 'names': None, 'consolidate': False})
+    # set_index_hierarchy on hierarchical columns
+    S2 = _fs([0, 1], [('A', 1), ('A', 2), ('B', 1)], 'auto', 'hier2', ['<U1', 'int64', 'int64'], [['x', 1, 5], ['y', 2, 6]])
+    out.append({'kind': 'setidx', 'spec': S2, 'layout': lay(S2), 'op': 'set_index_hierarchy', 'cols': [0, 1], 'drop': False,
+                'reorder': False, 'then_unset': False, 'names': None, 'consolidate': False})
+    # pivot_unstack: the first group lacks target 2, the last group has it; int column, NaN fill
+    U1 = _fs([('a', 1), ('b', 1), ('b', 2)], ['v'], 'hier2', 'str', ['int64'], [[10], [20], [30]])
+    out.append({'kind': 'unstack', 'spec': U1, 'layout': lay(U1), 'depth_level': 1, 'fill': NAN, 'fill2': NAN, 'default_fill': False})
+    return out
